@@ -133,7 +133,7 @@ def lemma_text(case, out, leaves, diagnostic=False):
     return '%sLemma %s : %s%s.\nProof. intros; %s. Qed.\n\n' % (comment, name, head, stmt, tac)
 
 
-def emit_family(fam, imports, cases, leaves_fn, extra_header=''):
+def emit_family(fam, imports, cases, leaves_fn, extra_header='', chunk=None):
     """imports: list of module names (PV-qualified); leaves_fn: () -> list of leaf names"""
     outs = [run_case(c) for c in cases]
     leaves = sorted(leaves_fn())
@@ -158,7 +158,7 @@ def emit_family(fam, imports, cases, leaves_fn, extra_header=''):
     finally:
         objs.ALT[0] = False
     import glob
-    chunk = int(os.environ.get('VERIF_CHUNK', '6'))
+    chunk = int(os.environ.get('VERIF_CHUNK', chunk or 6))
     groups = [list(range(i, min(i + chunk, len(cases)))) for i in range(0, len(cases), chunk)] or [[]]
     keep = set()
     for gi, idxs in enumerate(groups):
